@@ -443,7 +443,10 @@ def _run_unit(unit_dir, repo, workdir, rlimit=None, extra_args=None, timeout=900
     res['discharged'] = res['verified_fns']
     # a query that ran out of solver resources says nothing about the *other* queries: failures reported with a
     # solver model in those stay violations
-    soft = [u for u in undec if any(k in u['message'].lower() for k in ('rlimit', 'resource limit', 'proof step of the verification script'))]
+    # ... and so do failures of functions whose own script is intact when ANOTHER function of the unit lost an anchor or
+    # contains a closure without contract: every function is verified on its own, against contracts only
+    soft = [u for u in undec if any(k in u['message'].lower() for k in ('rlimit', 'resource limit', 'proof step of the verification script',
+                                                                         'proof script lost an anchor in this function', 'the function contains a closure without contract'))]
     if viol and undec and len(soft) == len(undec):
         res['rlimit_queries'] = [f"{u['function']} @{u['line']}" for u in soft]
         # kept for the caller: if every violation turns out to be a listed known finding, these decide (-> undecided)
